@@ -6,6 +6,10 @@ HERE = os.path.dirname(os.path.dirname(os.path.abspath(__file__)))
 BASELINE = "cd /repo && /venv/bin/python -m pytest -ra -q -p no:cacheprovider --timeout=900 --continue-on-collection-errors"
 
 CLAIMED = {
+ "C01": dict(
+    text="proof (partial): Coq theorems (Props/C01.v) for every dimension and coupling pattern, in any commutative ring with a derivation D=d/dh and the morphism ev0=(h:=0): if each connected component's matrix exponential satisfies the law of the exponential (ev0 P = I, D P = A P: the SymPy oracle) then the assembled update expressions — per-component scatter, non-zero-entry sums, both constant-offset formulas, with exactly the raises of the code as hypotheses — are the identity at h=0 and have h-derivative equal to the right-hand side at the updated state; a Coquelicot development proves uniqueness for u' = Au + b in any dimension, hence these two facts mean 'the state the equations reach after time h' and give the two-step law. Tie: update expressions of the implementation evaluated exactly with each propagator symbol bound to an independent rational vs the model (in Coq); 40-digit probe of the flow, identity at 0 and semigroup law against expm of the user's own equations.",
+    note="Partial: SymPy's exp/simplify is an oracle validated per instance, not proved. Trusted: Coq kernel/vm_compute; stdlib real-number axioms + classic + funext (bridge theorems only); scipy connected_components law (coupled indices share a label); harness.",
+    technique="Coq proof (differential-ring algebra + Coquelicot uniqueness) + exact correspondence of the assembly", ref="5/C01"),
  "C02": dict(
     text="proof: Coq theorems (Props/C02.v) over a model of split_lin_inhom_nonlin, Shape.from_ode/reconstitute_expr, from_shapes, get_sub_system and the numeric re-assembly, in an arbitrary commutative ring and for EVERY classifier: the split re-assembles to the split expression, the row of each highest derivative equals the user's right-hand side, lower rows equal the next derivative, cutting any sub-system and rebuilding the update expression loses nothing. Tie: (A,b,c) and numeric update expressions of the implementation evaluated exactly at rational points and compared with the model inside Coq; probe compares with the user's text directly (exact; 40 digits for function atoms / float literals) under all flag settings.",
     note="Trusted: Coq kernel/vm_compute; harness (rendering, exact evaluation); SymPy parse/expand/simplify/collect/print assumed meaning-preserving and validated per case; exact layer restricted to Laurent polynomials with dyadic coefficients.",
